@@ -31,6 +31,10 @@ def gen_cases(tier, seed):
     n = 14 if tier == "quick" else 160
     specs = meshzoo.gen_mesh_specs(rng, n, max_sites=300 if tier == "quick" else 1200)
     cases = [{"mesh": s, "seed": int(rng.integers(1 << 30)), "cost": 1} for s in specs]
+    for (nx_, ny_, hy_) in [(3, 5, 0.75), (5, 8, 0.75), (11, 8, 0.75), (2, 2, float(np.sqrt(3) / 2)), (2, 11, float(np.sqrt(3) / 2)), (4, 4, 0.75)]:
+        # very regular lattices: on some of them the LU factor of the (singular) Neumann Laplacian is EXACTLY singular and the
+        # container refuses; whatever it does, the operators it holds are the operators of the mesh
+        cases.append({"mesh": {"kind": "lattice", "nx": nx_, "ny": ny_, "hy": hy_}, "seed": int(rng.integers(1 << 30)), "cost": 1})
     for j in range(1 if tier == "quick" else 3):
         # more than 2^15 edges (~11-20 thousand sites): sparse-only identities after in-place refreshes
         cases.append({"kind": "large", "nx": int([112, 130, 150][j]), "ny": int([110, 125, 140][j]), "seed": int(rng.integers(1 << 30)), "cost": 30, "mesh": {"kind": "large_hex"}})
